@@ -10,12 +10,13 @@ has a 4-cell probe set {(0,0), (0,3), (3,0), (1,1)} - pairs in one row, one colu
 reaches 2 givens (quick) / all 5^4 layouts (thorough), so contradictory and strongly constrained boards are covered.
 
 "large" family, descriptor ("large", n, level) with level 0 = quick / 1 = thorough: densely clued boards of box size
-2, 3 and 4 (4 x 4, 9 x 9, 16 x 16 - the last one has givens of two digits) derived from a few complete grids (the
+2, 3 and 4 (4 x 4, 9 x 9, 16 x 16 - the last one has givens of two digits) derived from two to four complete grids (the
 lexicographically first and last one and one from a position-dependent digit order, found by backtracking over the
 rules): the full grid, the grid minus every k-th given, minus the last row / last column / far-corner box / a whole band
-or stack, minus cell pairs that only the row rule / the column rule / the box rule can decide, and one given changed
-by +1 / -1 (first, last, middle cell, a corner, an edge), once as is and once with the givens that contradict the
-changed value blanked.  Oracle for n >= 3: completions() - backtracking from the rules over the blank cells (most
+or stack, minus cell pairs that only the row rule / the column rule / the box rule can decide, minus two parallel
+lines, minus all cells holding one of two digits except one (so that this given matters; 16 and 10 on 16 x 16), and one
+given changed by +1 / -1 (first, last, middle cell, a corner, an edge), once as is and once with the givens that
+contradict the changed value blanked.  Oracle for n >= 3: completions() - backtracking from the rules over the blank cells (most
 constrained cell first) that returns ALL completions; it is compared with the all_grids() filter on 4 x 4 boards in
 selftest().  The clue-free 9 x 9 / 16 x 16 boards are left out: neither can the oracle enumerate them nor does the solver
 decide them within minutes (81 / 256 undecided cells).
@@ -212,10 +213,12 @@ def large_instances(n, level):
     """The "large" family of box size n (see the module docstring); yields problem grids."""
     size = n * n
     ncell = size * size
-    if n == 4:
-        orders = ["rot"] if level == 0 else ["rot", "asc"]
-    else:
-        orders = ["asc", "desc", "rot"] if level == 0 else ["asc", "desc", "rot", "pattern"]
+    orders = ["rot"] if n == 4 else ["asc", "desc", "rot"]
+    if n == 3 and level == 0:
+        orders = ["asc", "rot"]
+    if n == 2 and level:
+        orders.append("pattern")
+        level = 0  # 4 x 4 is covered exhaustively elsewhere: the quick selection on one more grid is enough
     seen = set()
 
     def bump(v, d):
@@ -251,6 +254,24 @@ def large_instances(n, level):
         if n <= 3:
             cand.append(without(lambda y, x: y >= size - n))
             cand.append(without(lambda y, x: x >= size - n))
+        # two parallel lines blanked (dropping the rule of ONE line changes nothing - it follows from the others -, so
+        # pairs are what can show a lost line rule; for boxes the same holds for two boxes of one band or stack, and
+        # the four-box rectangles below are the smallest probe)
+        linepairs = [(size - 2, size - 1), (0, 1)] if level == 0 else [(i, i + 1) for i in range(size - 1)]
+        for a, b in linepairs:
+            cand.append(without(lambda y, x: y in (a, b)))
+            cand.append(without(lambda y, x: x in (a, b)))
+        # every cell holding a or b blanked except one given a (first such cell) resp. one given b (last such cell):
+        # the given decides its whole a/b chain, so a given that is ignored shows (values of two digits on 16 x 16)
+        if level:
+            pairs = [(v, v % size + 1) for v in range(1, size + 1)]
+        else:
+            pairs = {2: [(4, 3)], 3: [(9, 8), (1, 2)], 4: [(16, 15), (10, 9), (11, 1)]}[n]
+        for a, b in pairs:
+            pa = [i for i, v in enumerate(g) if v == a]
+            pb = [i for i, v in enumerate(g) if v == b]
+            cand.append([0 if (v in (a, b) and i != pa[0]) else v for i, v in enumerate(g)])
+            cand.append([0 if (v in (a, b) and i != pb[-1]) else v for i, v in enumerate(g)])
         if n == 2:
             # only the last row and the last column given / only the far-corner box and the first row
             cand.append(without(lambda y, x: not (y == size - 1 or x == size - 1)))
